@@ -585,12 +585,20 @@ class Facts:
     def _build_cg(self):
         ce = defaultdict(set)
         cr = defaultdict(set)
+        self._dispatch = {}
         for b in self.bodies.values():
             for bi, t in b.all_calls():
                 for n in call_names(t):
                     if n in self.bodies:
                         ce[b.path].add(n)
                         cr[n].add(b.path)
+                    elif '::' in n and not n.startswith('<'):
+                        # call through a crate-local trait (dyn or generic): every crate impl of that method
+                        tr, _, meth = n.rpartition('::')
+                        for imp in self.trait_impls(tr, meth):
+                            ce[b.path].add(imp)
+                            cr[imp].add(b.path)
+                            self._dispatch.setdefault(b.path, set()).add((tr, imp))
                 # function items passed as arguments (e.g. map_err(Error::Io), thread::spawn(f))
                 for a in t['a']:
                     fn = a.get('fn')
@@ -617,6 +625,18 @@ class Facts:
                                 cr[fn].add(b.path)
         self._callees, self._callers = ce, cr
 
+    def trait_impls(self, trait_path, meth):
+        """crate bodies `<X as trait_path>::meth` (impls of a crate-local trait method)"""
+        idx = self.__dict__.setdefault('_trait_idx', None)
+        if idx is None:
+            idx = {}
+            for p, b in self.bodies.items():
+                tr = b.d.get('impl_trait')
+                if tr and p.startswith('<'):
+                    idx.setdefault((tr, p.rsplit('::', 1)[-1]), []).append(p)
+            self._trait_idx = idx
+        return idx.get((trait_path, meth), [])
+
     def drop_impls_for(self, ty):
         """crate-local Drop::drop bodies run when a value of type `ty` (string) is dropped: the impl
         for the type itself and for any local ADT named inside it (fields, generics) - an
@@ -630,6 +650,12 @@ class Facts:
                     self._drop_impls[base] = p
             # ADT containment: type name -> field type strings
             self._adt_fields = {a['path']: [f['ty'] for v in a['variants'] for f in v['fields']] for a in self.raw['adts']}
+        cache = self.__dict__.setdefault('_drop_cache', {})
+        if ty in cache:
+            return cache[ty]
+        if not self._drop_impls:
+            cache[ty] = set()
+            return cache[ty]
         res = set()
         seen = set()
         stack = [ty]
@@ -646,6 +672,7 @@ class Facts:
                     for ft in ftys:
                         if ft not in seen:
                             stack.append(ft)
+        cache[ty] = res
         return res
 
     def transitive_callers(self, paths):
@@ -923,10 +950,30 @@ def guard_liveness(body, extra_guard_types=(), removed_edges=frozenset()):
         pre, out = transfer(bi, st)
         PRE[bi] = frozenset(pre)
         OUT[bi] = out
+        # variant sensitivity: a `Result<..>` local that owns a guard holds none on its Err edge,
+        # an `Option<..>` local none on its None edge
+        edge_kill = {}
+        tm = body.blocks[bi]['t']
+        if tm['k'] == 'switch':
+            d = None
+            l = tm['a'].get('p', [None])[0] if tm['a'].get('o') in ('c', 'm') else None
+            for st2 in body.blocks[bi]['s']:
+                if st2['k'] == 'assign' and st2['p'] == [l] and st2['r']['k'] == 'discr' and len(st2['r']['p']) == 1:
+                    d = st2['r']['p'][0]
+            if d is not None and d in out:
+                ty = body.locals[d]
+                empty_val = 1 if ty.startswith('std::result::Result<') else (0 if ty.startswith('std::option::Option<') else None)
+                if empty_val is not None:
+                    for v, tg in zip(tm['vals'], tm['ts']):
+                        if v == empty_val:
+                            edge_kill[tg] = d
+                    if empty_val not in tm['vals'] and len(tm['vals']) == 1:
+                        edge_kill[tm['ts'][-1]] = d
         for s in body.succ(bi):
             if s not in IN or (bi, s) in removed_edges:
                 continue
-            new = out if IN[s] is TOP else (IN[s] & out)
+            o2 = out - {edge_kill[s]} if s in edge_kill else out
+            new = o2 if IN[s] is TOP else (IN[s] & o2)
             if IN[s] is TOP or new != IN[s]:
                 IN[s] = new
                 work.append(s)
